@@ -67,10 +67,13 @@ async def listing(be, prefix):
     return list(r)
 
 
-async def run_ops(be, ops, contents, names, chunk=16, fake=None):
+async def run_ops(be, ops, contents, names, chunk=16, fake=None, others=()):
     idx = {n: i + 1 for i, n in enumerate(names)}
     evs = []
-    for op in ops:
+    first = be
+    for i_, op in enumerate(ops):
+        # several adapter OBJECTS on the same store take turns (several clients / processes): none of them may answer from what it remembers
+        be = (first, *others)[(op['by'] if 'by' in op else (i_ * 7 + i_ // 3 + (i_ * i_) // 5)) % (1 + len(others))] if others else first
         k = op['k']
         e = {'k': k, 'n': idx.get(op.get('n'), 0), 'c': op.get('c', 0), 'ok': True, 'v': 0, 'names': [], 'unknown': 0, 'prefix': codepoints(op.get('prefix', ''))}
         if fake is not None:
@@ -233,6 +236,7 @@ def one_history(run, kind, seed, nobj, nops, quick, ops_override=None, names_ove
     ops = ops_override or random_ops(rng, names, prefixes, len(contents), nops)
     with harness.scratch() as d, vclock.virtual():
         old = None
+        others = []
         if kind.startswith('local:'):
             be, old = make_local(kind.split(':', 1)[1], d)
         fake = None
@@ -243,12 +247,16 @@ def one_history(run, kind, seed, nobj, nops, quick, ops_override=None, names_ove
         elif kind.startswith('s3:'):
             fake = fakes3.FakeS3(page_size=int(kind.split(':')[1]))
             be = fakes3.client(fake)
+            others = [fakes3.client(fake)] if seed % 3 else []
         else:
             fake = fakeb2.FakeB2(page_size=int(kind.split(':')[1]), restricted=bool(seed % 2))
             be = fakeb2.client(fake)
+            others = [fakeb2.client(fake)] if seed % 3 else []
         try:
             async def go():
-                evs = await run_ops(be, ops, contents, names, fake=fake, chunk=None if default_chunk else 16)
+                evs = await run_ops(be, ops, contents, names, fake=fake, chunk=None if default_chunk else 16, others=others)
+                for o_ in others:
+                    await o_.close()
                 r = be.close()
                 if inspect.isawaitable(r):
                     await r
@@ -299,6 +307,16 @@ def main(run):
     # objects around and above the default stream chunk size, streamed with the adapters' own default chunk size
     for i, kind in enumerate(['local:abs', 's3:2', 'b2:2'] if quick else ['local:abs', 'local:rel', 's3:2', 's3:1000', 'b2:2', 'b2:1000']):
         traces.append(one_history(run, kind, run.seed * 1000 + 900 + i, nobj=3, nops=10 if quick else 30, quick=quick, default_chunk=True))
+    # two clients, scripted: what one adapter object has seen or written is changed by the other one behind its back
+    twonames = ['shared/one', 'shared/two', 'shared/three']
+    twoops = [{'k': 'upload', 'n': 'shared/one', 'c': 1, 'by': 0}, {'k': 'exists', 'n': 'shared/one', 'by': 0}, {'k': 'delete', 'n': 'shared/one', 'by': 1},
+              {'k': 'exists', 'n': 'shared/one', 'by': 0}, {'k': 'list', 'prefix': 'shared/', 'by': 0}, {'k': 'upload', 'n': 'shared/two', 'c': 2, 'by': 1},
+              {'k': 'exists', 'n': 'shared/two', 'by': 0}, {'k': 'download', 'n': 'shared/two', 'by': 0}, {'k': 'upload', 'n': 'shared/two', 'c': 3, 'by': 0},
+              {'k': 'download', 'n': 'shared/two', 'by': 1}, {'k': 'delete', 'n': 'shared/two', 'by': 0}, {'k': 'exists', 'n': 'shared/two', 'by': 1},
+              {'k': 'upload_stream', 'n': 'shared/three', 'c': 4, 'by': 1}, {'k': 'exists', 'n': 'shared/three', 'by': 1}, {'k': 'delete', 'n': 'shared/three', 'by': 0},
+              {'k': 'exists', 'n': 'shared/three', 'by': 1}, {'k': 'download_stream', 'n': 'shared/three', 'by': 1}, {'k': 'list', 'prefix': '', 'by': 1}]
+    for kind in ('s3:2', 's3:1000', 'b2:2', 'b2:1000'):
+        traces.append(one_history(run, kind, 616162, 0, 0, quick, ops_override=twoops, names_override=twonames))      # seed % 3 != 0: two adapter objects
     # names that end in .tmp are ordinary object names (local backend: recorded finding, exercised on every run)
     tmpnames = ['notes.tmp', 'dir/x.tmp', 'plain']
     tmpops = [{'k': 'upload', 'n': n, 'c': 2} for n in tmpnames] + [{'k': 'exists', 'n': 'notes.tmp'}, {'k': 'download', 'n': 'dir/x.tmp'},
